@@ -629,6 +629,17 @@ func init() {
 			pf := Profile{MaxLogs: 2, ShareKeys: true, MinOps: 2, MaxOps: 10, Adversarial: 0.75, Mutations: 0.15, BigSizes: true}
 			p := &Plan{Scenario: "W"}
 			p.Cfg = genConfig(r, pf)
+			if n%1000 == 99 {
+				// one long history now and then (thousands of requests against one witness): whatever the code keeps across
+				// requests - caches that fill up and evict, counters, remembered verdicts - the table holds for the 5000th request too
+				pf.MinOps, pf.MaxOps, pf.Adversarial, pf.BigSizes = 3000, 7000, 0.5, false
+				p.Cfg.Store = "mem"
+				p.Ops = genHistory(r, pf, &p.Cfg)
+				if r.Bool() {
+					p.Cfg.Extra = map[string]int64{"via_adapter": 1}
+				}
+				return p
+			}
 			p.Ops = genHistory(r, pf, &p.Cfg)
 			if n%6 == 1 {
 				p.Cfg.Extra = map[string]int64{"via_adapter": 1} // the same table must hold behind the adapter Main wires in
